@@ -27,8 +27,15 @@ Summary (model with the retype rule, i.e. after the F19 fix)
   `reachable_manifest_retained_run`, `reachable_delete_denied_run`,
   `referenced_retained_run`, under `DecFunctional`/`ManOK` and collision-freeness on
   the pushed manifest bytes.
+* Concurrency (section "Under concurrency"): the same over EVERY schedule of the interleaving
+  model `MemConc` (`arun`: registry operations and the two halves of chunked commits of any number
+  of clients, in any order): `tag_stable_arun`, `resolveTag_stable_arun`, `tagged_present_arun`,
+  `tagged_manifest_kept_arun`, `getTag_stable_arun`, `reachable_blob_kept_arun`,
+  `reachable_manifest_kept_arun`, `reachable_delete_denied_arun`; helpers in
+  `OciModel/MemConcImmutable.lean`.
 -/
 import OciModel.MemImmutable
+import OciModel.MemConcImmutable
 import OciModel.ManifestDecodeLemmas
 
 namespace OciModel.Props.C14
@@ -471,6 +478,201 @@ theorem declared_reference_retained_run {s : State} (him : s.immutableTags = tru
 
 end
 
+/-! ### Under concurrency: every schedule of atomic steps
+
+`MemConc` describes a concurrent execution of the registry as an interleaving of atomic steps
+(`AStep`): a registry operation (`.op o`, one critical section of the registry mutex — the
+regenerated lock facts of C08 — whose effect is `Mem.step`), or one of the two critical sections
+of a chunked `Commit` (`commitCheck` under the buffer lock, `commitStore` under the registry lock),
+which other clients' steps may separate. `arun H c sched` runs ANY such schedule: nothing is
+assumed about it (no commit-lock discipline, no well-formedness), so the theorems hold for any
+number of clients doing anything in any order. `c.snaps` are the snapshots of commits that have
+passed their first half.
+
+A half of a commit never touches tags or manifests (`MemConcImm.commit_frame`), so T1 and T2 need
+nothing new. For blobs, `commitStore` inserts the pending snapshot under its digest: that the
+inserted bytes hash to it is the invariant `SnapsOk` of the concurrent state (true when no commit
+is pending, preserved by every step: `snapsOk_preserved_arun`), needed only for the clause "the
+retained blob still hashes to its digest". -/
+
+section conc
+open OciModel.MemConc
+
+/-- No atomic step changes the mode. -/
+theorem immutable_preserved_arun (c : CState) (sched : List AStep) :
+    (arun H c sched).st.immutableTags = c.st.immutableTags :=
+  MemConcImm.arun_immutable H c sched
+
+/-- Pending snapshots hash to their digests: true with no commit pending, and kept by every schedule. -/
+theorem snapsOk_init (s : State) : SnapsOk H (CState.mk s []).snaps := MemConcImm.snapsOk_nil H
+
+theorem snapsOk_preserved_arun (c : CState) (sched : List AStep) (h : SnapsOk H c.snaps) :
+    SnapsOk H (arun H c sched).snaps :=
+  MemConcImm.snapsOk_arun H c sched h
+
+/-- The digest invariant over every schedule. -/
+theorem inv_preserved_arun {c : CState} (hinv : Inv H c.st) (hsn : SnapsOk H c.snaps) (sched : List AStep) :
+    Inv H (arun H c sched).st :=
+  MemConcImm.inv_arun H c sched hinv hsn
+
+/-- **T1 under concurrency.** In immutable-tags mode a tag bound to `d` is bound to `d` after
+every schedule, from any concurrent state whatsoever. -/
+theorem tag_stable_arun {c : CState} (him : c.st.immutableTags = true) {r t : Bytes} {rp : Repo} {d : Desc}
+    (hg : getRepo c.st r = some rp) (ht : alookup t rp.tags = some d) (sched : List AStep) :
+    ∃ rp', getRepo (arun H c sched).st r = some rp' ∧ alookup t rp'.tags = some d := by
+  have := MemConcImm.arun_induction H
+    (P := fun c => c.st.immutableTags = true ∧ ∃ rp', getRepo c.st r = some rp' ∧ alookup t rp'.tags = some d)
+    (fun c a ⟨him, rp', hg, ht⟩ =>
+      ⟨(MemConcImm.astep_immutable H c a).trans him, MemConcImm.astep_tag_stable H him hg ht a⟩)
+    c ⟨him, rp, hg, ht⟩ sched
+  exact this.2
+
+/-- In the property's words: once `ResolveTag r t` has answered `d`, the atomic step
+`ResolveTag r t` answers `d` after every schedule (and changes nothing). -/
+theorem resolveTag_stable_arun {c : CState} {s0 : State} (him : c.st.immutableTags = true) {r t : Bytes}
+    {d : Desc} (h : step H c.st (.resolveTag r t) = (s0, .okDesc d)) (sched : List AStep) :
+    astep H (arun H c sched) (.op (.resolveTag r t)) = (arun H c sched, .okDesc d) := by
+  obtain ⟨rp, hg, ht⟩ := resolveTag_ok H h
+  obtain ⟨rp', hg', ht'⟩ := tag_stable_arun H him hg ht sched
+  show ({ arun H c sched with st := (step H (arun H c sched).st (.resolveTag r t)).1 },
+      (step H (arun H c sched).st (.resolveTag r t)).2) = _
+  rw [resolveTag_eq H hg' ht']
+
+/-- **T2 under concurrency**, without any assumption on `H`: the tagged manifest stays present
+under the tag's digest, with its media type, after every schedule. -/
+theorem tagged_present_arun {c : CState} (him : c.st.immutableTags = true) {r t : Bytes} {d : Desc}
+    {mt : Bytes} (h : TaggedPresent c.st r t d mt) (sched : List AStep) :
+    TaggedPresent (arun H c sched).st r t d mt := by
+  have := MemConcImm.arun_induction H
+    (P := fun c => c.st.immutableTags = true ∧ TaggedPresent c.st r t d mt)
+    (fun c a ⟨him, rp, b, hg, ht, hm, hmt⟩ =>
+      ⟨(MemConcImm.astep_immutable H c a).trans him,
+        let ⟨rp', b', hg', ht', hm', hor⟩ := MemConcImm.astep_tagged_manifest H him hg ht hm a
+        ⟨rp', b', hg', ht', hm', by
+          rcases hor with rfl | ⟨_, h⟩
+          · exact hmt
+          · exact h.trans hmt⟩⟩)
+    c ⟨him, h⟩ sched
+  exact this.2
+
+/-- **T2 under concurrency.** The manifest a tag points at is, after every schedule, still stored
+under the tag's digest with the same bytes and the same media type — under the hypothesis
+`getTag_stable_of_no_second_preimage` uses: the tagged bytes have no second preimage under `H`.
+(`Inv` is needed of the starting state only: it says the tagged bytes hash to the tag's digest.) -/
+theorem tagged_manifest_kept_arun {c : CState} (him : c.st.immutableTags = true) (hinv : Inv H c.st)
+    {r t : Bytes} {d : Desc} {data mt : Bytes} (hnc : ∀ x, H x = H data → x = data)
+    (h : TaggedData c.st r t d data mt) (sched : List AStep) :
+    TaggedData (arun H c sched).st r t d data mt := by
+  have hdig : H data = d.digest := by
+    obtain ⟨rp, b, hg, _, hm, hd, _⟩ := h
+    exact hd ▸ (hinv r rp hg).2 _ _ hm
+  have := MemConcImm.arun_induction H
+    (P := fun c => c.st.immutableTags = true ∧ TaggedData c.st r t d data mt)
+    (fun c a ⟨him, rp, b, hg, ht, hm, hd, hmt⟩ =>
+      ⟨(MemConcImm.astep_immutable H c a).trans him,
+        let ⟨rp', b', hg', ht', hm', hor⟩ := MemConcImm.astep_tagged_manifest H him hg ht hm a
+        ⟨rp', b', hg', ht', hm', by
+          rcases hor with rfl | ⟨hh, _⟩
+          · exact hd
+          · exact hnc _ (hh.trans hdig.symm), by
+          rcases hor with rfl | ⟨_, hh⟩
+          · exact hmt
+          · exact hh.trans hmt⟩⟩)
+    c ⟨him, h⟩ sched
+  exact this.2
+
+/-- In the property's words: once `GetTag r t` has returned `desc` and `data`, the atomic step
+`GetTag r t` returns the same descriptor and bytes after every schedule. -/
+theorem getTag_stable_arun {c : CState} {s0 : State} (him : c.st.immutableTags = true) (hinv : Inv H c.st)
+    {r t : Bytes} {desc : Desc} {data : Bytes} (hnc : ∀ x, H x = H data → x = data)
+    (h : step H c.st (.getTag r t) = (s0, .okRead desc data)) (sched : List AStep) :
+    astep H (arun H c sched) (.op (.getTag r t)) = (arun H c sched, .okRead desc data) := by
+  obtain ⟨rp, d, b, hg, ht, hm, rfl, rfl⟩ := getTag_ok H h
+  obtain ⟨rp', b', hg', ht', hm', hd, hmt⟩ :=
+    tagged_manifest_kept_arun H him hinv hnc ⟨rp, b, hg, ht, hm, rfl, rfl⟩ sched
+  show ({ arun H c sched with st := (step H (arun H c sched).st (.getTag r t)).1 },
+      (step H (arun H c sched).st (.getTag r t)).2) = _
+  rw [getTag_eq H hg' ht' hm', hd]
+  simp [descOf, hd, hmt]
+
+/-- Every manifest push in the schedule takes its decoding from `decOf` and its bytes from `D`
+(`DecFunctional` for schedules; the halves of commits push no manifest). -/
+def SchedFunctional (decOf : Bytes → Bytes → Decoded) (D : Bytes → Prop) (sched : List AStep) : Prop :=
+  ∀ o, AStep.op o ∈ sched → OpOK decOf D o
+
+section
+variable (decOf : Bytes → Bytes → Decoded) (D : Bytes → Prop)
+
+/-- The invariant carried through a schedule. -/
+private def GoodC (c : CState) : Prop :=
+  c.st.immutableTags = true ∧ Inv H c.st ∧ SnapsOk H c.snaps ∧ ManOK decOf D c.st
+
+private theorem opOf_ok {sched : List AStep} (hs : SchedFunctional decOf D sched) {a : AStep} (ha : a ∈ sched) :
+    OpOK decOf D (MemConcImm.opOf a) := by
+  cases a with
+  | op o => exact hs o ha
+  | commitCheck r id dig => trivial
+  | commitStore r id => trivial
+
+private theorem GoodC.astep {c : CState} {a : AStep} (hop : OpOK decOf D (MemConcImm.opOf a))
+    (h : GoodC H decOf D c) : GoodC H decOf D (astep H c a).1 :=
+  ⟨(MemConcImm.astep_immutable H c a).trans h.1, MemConcImm.inv_astep H c a h.2.1 h.2.2.1,
+    MemConcImm.snapsOk_astep H c a h.2.2.1,
+    Eff.manOK H decOf D hop h.2.2.2 (MemConcImm.astep_eff H c a h.2.2.1)⟩
+
+/-- **Transitive retention under concurrency, blobs.** A stored blob reachable from a tag (at any
+depth; the `ReachableBlob` of `reachable_retained_run`) is, after every schedule, still stored
+under its digest, still hashing to it, and still reachable from the tags. Hypotheses as in the
+sequential theorem, plus `SnapsOk` of the starting state (an invariant, see above). -/
+theorem reachable_blob_kept_arun {c : CState} (him : c.st.immutableTags = true) (hinv : Inv H c.st)
+    (hsn : SnapsOk H c.snaps) (hok : ManOK decOf D c.st) (hinj : ∀ a b, D a → D b → H a = H b → a = b)
+    {r x : Bytes} (h : ReachableBlob H c.st r x) {sched : List AStep} (hs : SchedFunctional decOf D sched) :
+    ReachableBlob H (arun H c sched).st r x := by
+  have := MemConcImm.arun_induction_sched H
+    (P := fun c => GoodC H decOf D c ∧ ReachableBlob H c.st r x) (Q := fun a => OpOK decOf D (MemConcImm.opOf a))
+    (fun c a hop ⟨hgood, rp, b, hg, hreach, hb, _⟩ => by
+      obtain ⟨rp', hg', hreach', hblob, _⟩ := Eff.reach_retained H decOf D hgood.1 hgood.2.1 hgood.2.2.2 hop hinj
+        (MemConcImm.astep_eff H c a hgood.2.2.1) hg hreach
+      obtain ⟨b', hb'⟩ := hblob b hb
+      have hgood' := GoodC.astep H decOf D hop hgood
+      exact ⟨hgood', rp', b', hg', hreach', hb', (hgood'.2.1 r rp' hg').1 _ _ hb'⟩)
+    c ⟨⟨him, hinv, hsn, hok⟩, h⟩ sched (fun a ha => opOf_ok decOf D hs ha)
+  exact this.2
+
+/-- **Transitive retention under concurrency, manifests.** A stored manifest reachable from a
+tag keeps its bytes, media type and references, and stays reachable, after every schedule. -/
+theorem reachable_manifest_kept_arun {c : CState} (him : c.st.immutableTags = true) (hinv : Inv H c.st)
+    (hsn : SnapsOk H c.snaps) (hok : ManOK decOf D c.st) (hinj : ∀ a b, D a → D b → H a = H b → a = b)
+    {r x data mt : Bytes} {refs : List RefInfo} (h : ReachableManifest c.st r x data mt refs)
+    {sched : List AStep} (hs : SchedFunctional decOf D sched) :
+    ReachableManifest (arun H c sched).st r x data mt refs := by
+  have := MemConcImm.arun_induction_sched H
+    (P := fun c => GoodC H decOf D c ∧ ReachableManifest c.st r x data mt refs)
+    (Q := fun a => OpOK decOf D (MemConcImm.opOf a))
+    (fun c a hop ⟨hgood, rp, b, hg, hreach, hb, hd, hmt, hrefs⟩ => by
+      obtain ⟨rp', hg', hreach', _, hman⟩ := Eff.reach_retained H decOf D hgood.1 hgood.2.1 hgood.2.2.2 hop hinj
+        (MemConcImm.astep_eff H c a hgood.2.2.1) hg hreach
+      obtain ⟨b', hb', hd', hmt', hrefs'⟩ := hman b hb
+      exact ⟨GoodC.astep H decOf D hop hgood, rp', b', hg', hreach', hb', hd'.trans hd, hmt'.trans hmt,
+        hrefs'.trans hrefs⟩)
+    c ⟨⟨him, hinv, hsn, hok⟩, h⟩ sched (fun a ha => opOf_ok decOf D hs ha)
+  exact this.2
+
+/-- Hence, after every schedule, the atomic step `DeleteBlob` of such a blob is refused and
+changes nothing. -/
+theorem reachable_delete_denied_arun {c : CState} (him : c.st.immutableTags = true) (hinv : Inv H c.st)
+    (hsn : SnapsOk H c.snaps) (hok : ManOK decOf D c.st) (hinj : ∀ a b, D a → D b → H a = H b → a = b)
+    {r x : Bytes} (h : ReachableBlob H c.st r x) {sched : List AStep} (hs : SchedFunctional decOf D sched) :
+    astep H (arun H c sched) (.op (.deleteBlob r x)) = (arun H c sched, .err "DENIED") := by
+  obtain ⟨rp', b', hg', hreach', hb', _⟩ := reachable_blob_kept_arun H decOf D him hinv hsn hok hinj h hs
+  show ({ arun H c sched with st := (step H (arun H c sched).st (.deleteBlob r x)).1 },
+      (step H (arun H c sched).st (.deleteBlob r x)).2) = _
+  rw [reachable_retained H ((immutable_preserved_arun H c sched).trans him) hg' hreach' hb']
+
+end
+
+end conc
+
 /-! ### Concrete witnesses
 
 A registry in immutable mode holding repository `foo` with one layer blob, one
@@ -653,6 +855,106 @@ theorem sF_layer_protected : step Hc sF (.deleteBlob r0 layerDesc.digest) = (sF,
     rfl rfl rfl rfl List.mem_cons_self (.inl rfl) rfl
     (by rw [show childRef.desc.mediaType = ManifestDecode.imageMT from rfl, mBlobF_refsAs]; exact List.mem_cons_self)
     rfl
+
+/-! #### Under concurrency
+
+The concurrent state `cA`: the registry `sA`, no commit pending. `attack` is a schedule in which a
+client's chunked commit (session `u0`, bytes `[7,7,7,7]`) is split in its two halves around other
+clients' attempts to move `v1`, to delete it, to delete its manifest and to delete its layer. -/
+
+open OciModel.MemConc
+
+def cA : CState := ⟨sA, []⟩
+def u0 : Bytes := [117]                    -- upload session "u"
+def chunk : Bytes := [7, 7, 7, 7]
+
+def attack : List AStep :=
+  [.op (.resume r0 u0 0), .op (.wWrite r0 u0 chunk),
+   .commitCheck r0 u0 (Hc chunk),                                  -- first half of the commit
+   .op (.pushManifest r0 tag0 [9, 9, 9] mtImage .opaque),          -- move the tag
+   .op (.deleteTag r0 tag0),
+   .commitStore r0 u0,                                             -- second half of the commit
+   .op (.deleteManifest r0 mDesc.digest),
+   .op (.deleteBlob r0 layerDesc.digest)]
+
+/-- The schedule is not idle: the first half of the commit passes, the attacks that come between
+the halves are refused, the second half stores the blob. (The two deletes come after it only so
+that these four facts are settled by evaluation: `refersTo` does not reduce under `decide`. That
+they are refused too is the last example below.) -/
+example : (astep Hc (arun Hc cA (attack.take 2)) (.commitCheck r0 u0 (Hc chunk))).2 = .okUnit := by decide
+example : (astep Hc (arun Hc cA (attack.take 3)) (.op (.pushManifest r0 tag0 [9, 9, 9] mtImage .opaque))).2 =
+    .err "DENIED" := by decide
+example : (astep Hc (arun Hc cA (attack.take 4)) (.op (.deleteTag r0 tag0))).2 = .err "DENIED" := by decide
+example : (astep Hc (arun Hc cA (attack.take 5)) (.commitStore r0 u0)).2 =
+    .okDesc ⟨octetStream, Hc chunk, 4⟩ := by decide
+example : (blobFor (arun Hc cA (attack.take 6)).st r0 (Hc chunk)).toOption.map (·.data) = some chunk := by decide
+
+/-- T1 on `cA`, every schedule. -/
+example (sched : List AStep) :
+    astep Hc (arun Hc cA sched) (.op (.resolveTag r0 tag0)) = (arun Hc cA sched, .okDesc mDesc) :=
+  resolveTag_stable_arun Hc (c := cA) (s0 := sA) sA_immutable (by decide) sched
+
+/-- T2 on `cA` without hypotheses on the hash. -/
+example (sched : List AStep) : TaggedPresent (arun Hc cA sched).st r0 tag0 mDesc mtImage :=
+  tagged_present_arun Hc (c := cA) sA_immutable ⟨rpA, mBlob, sA_repo, sA_tag, sA_manifest, rfl⟩ sched
+
+/-- T2 with the collision hypothesis, satisfiable together with `Inv` (`H := id`, state `sI`). -/
+example (sched : List AStep) : astep id (arun id ⟨sI, []⟩ sched) (.op (.getTag r0 tag0)) =
+      (arun id ⟨sI, []⟩ sched, .okRead ⟨mtImage, mdata, 2⟩ mdata) :=
+  getTag_stable_arun id (c := ⟨sI, []⟩) (s0 := sI) rfl sI_inv (fun _ h => h) (by decide) sched
+
+/-- `attack` pushes one manifest, with bytes outside `DW`: the hypothesis on the schedule is about
+what is pushed, so widen the universe to the two byte strings (`Hc` tells them apart by length). -/
+def DW2 (data : Bytes) : Prop := data = mdata ∨ data = [9, 9, 9]
+def decOfW2 (data mt : Bytes) : Decoded :=
+  if data = mdata ∧ mt = mtImage then .refs [⟨0, layerDesc⟩] else .opaque
+
+theorem sA_manOK2 : ManOK decOfW2 DW2 sA := by
+  have h : DecFunctional decOfW2 DW2 setup := by
+    intro op hop
+    simp only [setup, List.mem_cons, List.not_mem_nil, or_false] at hop
+    rcases hop with rfl | rfl
+    · trivial
+    · exact ⟨.inl rfl, by decide⟩
+  have := manOK_preserved_run Hc decOfW2 DW2 (manOK_init decOfW2 DW2 true) h
+  rwa [sA_reachable] at this
+
+theorem DW2_injective : ∀ a b, DW2 a → DW2 b → Hc a = Hc b → a = b := by
+  intro a b ha hb h
+  rcases ha with rfl | rfl <;> rcases hb with rfl | rfl
+  · rfl
+  · exact absurd h (by decide)
+  · exact absurd h (by decide)
+  · rfl
+
+theorem attack_functional : SchedFunctional decOfW2 DW2 attack := by
+  intro o ho
+  simp only [attack, List.mem_cons, List.not_mem_nil, or_false, AStep.op.injEq, reduceCtorEq, false_or, or_false] at ho
+  rcases ho with rfl | rfl | rfl | rfl | rfl | rfl
+  · trivial
+  · trivial
+  · exact ⟨.inr rfl, by decide⟩
+  · trivial
+  · trivial
+  · trivial
+
+/-- The hypotheses of the retention theorems are satisfiable on `cA`, with the interleaved commit
+and the attacks in the schedule: after `attack ++ sched` the layer is still stored, still hashes
+to its digest, is still reachable from `v1`, and deleting it is still `DENIED`. -/
+example (sched : List AStep) (hs : SchedFunctional decOfW2 DW2 sched) :
+    ReachableBlob Hc (arun Hc cA (attack ++ sched)).st r0 layerDesc.digest ∧
+    astep Hc (arun Hc cA (attack ++ sched)) (.op (.deleteBlob r0 layerDesc.digest)) =
+      (arun Hc cA (attack ++ sched), .err "DENIED") := by
+  have hrb : ReachableBlob Hc cA.st r0 layerDesc.digest :=
+    ⟨rpA, lBlob, sA_repo, sA_layer_reachable, sA_layer, by decide⟩
+  have hs' : SchedFunctional decOfW2 DW2 (attack ++ sched) := fun o ho => by
+    rcases List.mem_append.1 ho with h | h
+    · exact attack_functional o h
+    · exact hs o h
+  exact ⟨reachable_blob_kept_arun Hc decOfW2 DW2 (c := cA) sA_immutable sA_inv (snapsOk_init Hc sA) sA_manOK2
+      DW2_injective hrb hs',
+    reachable_delete_denied_arun Hc decOfW2 DW2 (c := cA) sA_immutable sA_inv (snapsOk_init Hc sA) sA_manOK2
+      DW2_injective hrb hs'⟩
 
 end Witness
 
